@@ -336,7 +336,25 @@ impl Sut {
             }
             Op::DeleteNode(n) => {
                 let b = match &self.db {
-                    Some(db) => db.delete_node(NodeId::new(*n)),
+                    Some(db) => {
+                        // GrafeoDB::delete_node detaches (109e5bf): the shadows receive the mark_deleted calls
+                        // the store makes for the incident edges of a live node
+                        let mut ids: Vec<u64> = Vec::new();
+                        if st.get_node(NodeId::new(*n)).is_some() {
+                            ids.extend(st.edges_from(NodeId::new(*n), Direction::Outgoing).map(|(_, e)| e.as_u64()));
+                            ids.extend(st.edges_to(NodeId::new(*n)).into_iter().map(|(_, e)| e.as_u64()));
+                        }
+                        let b = db.delete_node(NodeId::new(*n));
+                        let mut seen = BTreeSet::new();
+                        for e in ids {
+                            if seen.insert(e) && st.get_edge(EdgeId::new(e)).is_none() {
+                                let (a, d) = self.edges[e as usize];
+                                self.sh_fwd.mark_deleted(NodeId::new(a), EdgeId::new(e));
+                                self.sh_bwd.mark_deleted(NodeId::new(d), EdgeId::new(e));
+                            }
+                        }
+                        b
+                    }
                     None => st.delete_node(NodeId::new(*n)),
                 };
                 format!("(RBool {})", cb(b))
@@ -657,7 +675,7 @@ fn observe(sut: &Sut, r: &mut Rng, heavy: bool, after_refresh: bool, light: bool
     for (id, a, b, _) in &all_edges {
         if !live.contains(a) || !live.contains(b) {
             fail(
-                "C14-K2",
+                "C14-K8",
                 format!("live edge {} ({}->{}) has an endpoint that is not a live node", id, a, b),
                 Some("k_dangling BW {OPS}".into()),
             );
@@ -795,7 +813,7 @@ fn observe(sut: &Sut, r: &mut Rng, heavy: bool, after_refresh: bool, light: bool
         for x in neigh[2].iter().chain(to.iter().map(|p| &p.0)) {
             if !live.contains(x) {
                 fail(
-                    "C14-K2",
+                    "C14-K8",
                     format!("node {} is not live but is listed as a neighbour of {}", x, n),
                     Some("k_dangling BW {OPS}".into()),
                 );
@@ -872,21 +890,13 @@ fn observe(sut: &Sut, r: &mut Rng, heavy: bool, after_refresh: bool, light: bool
                 .filter(|&n| st.get_node_property(NodeId::new(n), &pk).is_some_and(|v| v == q))
                 .collect();
             if found != scan {
-                // a float NaN / signed zero in the query value is the K3 class, everything else
-                // can only come from a property written to an id that was not a live node (K6)
-                if special(&q) {
-                    fail(
-                        "C14-K3",
-                        format!("index lookup k{} = {:?} returns {:?} but the scan finds {:?}", k, q, found, scan),
-                        Some(format!("k_index_float BW {{OPS}} {} {}", k, cv(&q))),
-                    );
-                } else {
-                    fail(
-                        "C14-K6",
-                        format!("index lookup k{} = {:?} returns {:?} but the scan over the live nodes finds {:?}", k, q, found, scan),
-                        Some(format!("k_index_dead BW {{OPS}} {} {}", k, cv(&q))),
-                    );
-                }
+                // since c82f983 values with a float NaN / zero are scanned; what can still differ is a
+                // property written to an id that was not a live node (K6)
+                fail(
+                    "C14-K6",
+                    format!("index lookup k{} = {:?} returns {:?} but the scan over the live nodes finds {:?}", k, q, found, scan),
+                    Some(format!("k_index_dead BW {{OPS}} {} {}", k, cv(&q))),
+                );
             }
             // might_match, all six operators
             let mut bs: Vec<&str> = Vec::new();
@@ -895,15 +905,9 @@ fn observe(sut: &Sut, r: &mut Rng, heavy: bool, after_refresh: bool, light: bool
                 bs.push(cb(mm));
                 if !mm {
                     if let Some((n, x)) = stored.iter().find(|(_, x)| sat(op, x, &q)) {
-                        // strict comparisons: the open finding K4; <>: K5 (repaired by 1879631, so a
-                        // failure is reported as a violation); the other operators have no known class
-                        let round = matches!(op, CompareOp::Lt | CompareOp::Gt);
-                        let class = if round { "C14-K4" } else if matches!(op, CompareOp::Ne) { "C14-K5" } else { "" };
-                        fail(
-                            class,
-                            format!("might_match(k{}, {:?}, {:?}) = false but node {} stores {:?}", k, op, q, n, x),
-                            if class.is_empty() { None } else { Some(format!("k_zone BW true {{OPS}} {} {} {} {}", k, opn, cv(&q), cb(round))) },
-                        );
+                        // K4 (c5e300e) and K5 (1879631) are repaired: no class, a failure is a violation
+                        let _ = opn;
+                        fail("", format!("might_match(k{}, {:?}, {:?}) = false but node {} stores {:?}", k, op, q, n, x), None);
                     }
                 }
             }
@@ -928,11 +932,7 @@ fn observe(sut: &Sut, r: &mut Rng, heavy: bool, after_refresh: bool, light: bool
                 .filter(|&n| st.get_node_property(NodeId::new(n), &pk).is_some_and(|v| in_range(&v, &lo, &hi, li, hi_i)))
                 .collect();
             if got != scan {
-                fail(
-                    "C14-K4",
-                    format!("find_nodes_in_range(k{}, {:?}, {:?}, {}, {}) = {:?} but the scan finds {:?}", k, lo, hi, li, hi_i, got, scan),
-                    Some(format!("k_range BW {{OPS}} {} {} {} {} {}", k, cov(&lo), cov(&hi), cb(li), cb(hi_i))),
-                );
+                fail("", format!("find_nodes_in_range(k{}, {:?}, {:?}, {}, {}) = {:?} but the scan finds {:?}", k, lo, hi, li, hi_i, got, scan), None);
             }
         }
         // edge columns: zone maps only
@@ -945,13 +945,8 @@ fn observe(sut: &Sut, r: &mut Rng, heavy: bool, after_refresh: bool, light: bool
                 bs.push(cb(mm));
                 if !mm {
                     if let Some((e, x)) = stored_e.iter().find(|(_, x)| sat(op, x, &q)) {
-                        let round = matches!(op, CompareOp::Lt | CompareOp::Gt);
-                        let class = if round { "C14-K4" } else if matches!(op, CompareOp::Ne) { "C14-K5" } else { "" };
-                        fail(
-                            class,
-                            format!("edge might_match(k{}, {:?}, {:?}) = false but edge {} stores {:?}", k, op, q, e, x),
-                            if class.is_empty() { None } else { Some(format!("k_zone BW false {{OPS}} {} {} {} {}", k, opn, cv(&q), cb(round))) },
-                        );
+                        let _ = opn;
+                        fail("", format!("edge might_match(k{}, {:?}, {:?}) = false but edge {} stores {:?}", k, op, q, e, x), None);
                     }
                 }
             }
@@ -992,7 +987,7 @@ fn observe(sut: &Sut, r: &mut Rng, heavy: bool, after_refresh: bool, light: bool
             .collect();
         if got != scan {
             fail(
-                if conds.iter().any(|(_, v)| special(v)) { "C14-K3" } else { "C14-K6" },
+                "C14-K6",
                 format!("find_nodes_by_properties({:?}) = {:?} but the scan over the live nodes finds {:?}", conds, got, scan),
                 Some(format!("k_props BW {{OPS}} {}", cl)),
             );
@@ -1023,11 +1018,8 @@ fn observe(sut: &Sut, r: &mut Rng, heavy: bool, after_refresh: bool, light: bool
             fail("", format!("statistics after refresh: totals {} / {} types {:?}, actual {} / {} {:?}", stats.total_nodes, stats.total_edges, ts, nc, ec, exp_t), None);
         }
         if ls != exp_l {
-            fail(
-                "C14-K7",
-                format!("statistics after refresh: label cardinalities {:?}, actual {:?}", ls, exp_l),
-                Some("k_stats_label BW {OPS}".into()),
-            );
+            // K7 is repaired (2e121d0): no class
+            fail("", format!("statistics after refresh: label cardinalities {:?}, actual {:?}", ls, exp_l), None);
         }
     }
     // ---- validate()
@@ -1045,7 +1037,7 @@ fn observe(sut: &Sut, r: &mut Rng, heavy: bool, after_refresh: bool, light: bool
         errs.sort();
         items.push(format!("O(OValidate {})", plist(&errs)));
         if !errs.is_empty() {
-            fail("C14-K2", format!("validate() reports {} dangling edge reference(s): {:?}", errs.len(), errs), Some("k_dangling BW {OPS}".into()));
+            fail("C14-K8", format!("validate() reports {} dangling edge reference(s): {:?}", errs.len(), errs), Some("k_dangling BW {OPS}".into()));
         }
     }
     Obs { items, fails }
@@ -1344,8 +1336,18 @@ fn run_trace_pr(
     let bw = cb(sut.backward());
     for (i, op) in ops.iter().enumerate() {
         let ret = sut.apply(op);
-        items.push(format!("E {} {}", op.coq(), ret));
-        opcoq.push(op.coq());
+        // GrafeoDB::delete_node is its own model step (it detaches since 109e5bf); everything else is the
+        // store operation.  The histories handed to the class predicates are GrafeoDB-level (`dop`).
+        match (mode, op) {
+            (Mode::Db, Op::DeleteNode(n)) => {
+                items.push(format!("D {} {}", n, ret));
+                opcoq.push(format!("(DbDeleteNode {})", n));
+            }
+            _ => {
+                items.push(format!("E {} {}", op.coq(), ret));
+                opcoq.push(format!("(Basic {})", op.coq()));
+            }
+        }
         let refreshed = matches!(op, Op::RefreshStats);
         if refreshed || (i + 1) % obs_every == 0 || i + 1 == ops.len() {
             // in the quick tier the observations in the middle of a long trace are light (fewer sampled
